@@ -721,6 +721,13 @@ func (t *Transport) Close() error {
 	return nil
 }
 
+// ClosedBy tells who closed the transport ("" while open).
+func (t *Transport) ClosedBy() string {
+	t.mu.Lock()
+	defer t.mu.Unlock()
+	return t.closedBy
+}
+
 // PeerClose closes the transport from the broker side.
 func (t *Transport) PeerClose() { t.closeBy("peer") }
 
